@@ -209,6 +209,13 @@ class Policy:
         self.sent_closed = False
         self.spawn_order: List[int] = []
         self.dropped = False
+        self.sent_n: Dict[int, int] = {}
+        # had the protocol itself asked to close (`Closed` sent upwards) when the harness, with nothing left to do, gave the connection up?
+        self.closed_by_server_first: Optional[bool] = None
+
+    def _body_over(self, view, oid: int) -> bool:
+        puts = view["puts"].get(oid, [])
+        return any(p[0] == "http.request" and p[2] is False for p in puts) or any(p[0] == "http.disconnect" for p in puts)
 
     def _ready(self, view, oid: int, k: int) -> bool:
         a = self.apps[k % len(self.apps)]
@@ -217,6 +224,10 @@ class Policy:
             return True
         if a["when"] in ("eager", "never_read"):
             return True
+        if a["when"] == "echo":
+            # a streaming application: it BEGINS its response (`early` messages: the head, perhaps a first piece of the body) while the
+            # request body is still arriving and goes on only when that body has ended - or when it is told that the client is gone
+            return self.sent_n.get(oid, 0) < a.get("early", 1) or self._body_over(view, oid)
         if a["when"] == "mid":
             return len(puts) >= 1
         return any(p[0] == "http.request" and p[2] is False for p in puts) or any(p[0] == "http.disconnect" for p in puts)
@@ -230,6 +241,17 @@ class Policy:
                 k = len(self.spawn_order)
                 self.spawn_order.append(oid)
                 self.pending[oid] = app_messages(self.requests[min(k, len(self.requests) - 1)], self.apps[k % len(self.apps)])
+        for k, oid in enumerate(self.spawn_order):
+            a = self.apps[k % len(self.apps)]
+            puts = view["puts"].get(oid, [])
+            if (a["when"] == "echo" and self.pending[oid] and self.pending[oid] != [None] and any(p[0] == "http.disconnect" for p in puts)
+                    and not any(p[0] == "http.request" and p[2] is False for p in puts)):
+                # told http.disconnect before its request body ended, a streaming application gives up: it returns
+                self.pending[oid] = [None]
+            if a["when"] == "echo" and self.pending[oid] and self.sent_n.get(oid, 0) < a.get("early", 1) and not self._body_over(view, oid):
+                # the early part of a streaming application's response goes out before the next read (deterministically)
+                self.sent_n[oid] = self.sent_n.get(oid, 0) + 1
+                return {"send": [oid, self.pending[oid].pop(0)]}
         choices = []
         if self.reads and not view["parked"] and not view["up_closed"]:
             choices.append("read")
@@ -245,12 +267,18 @@ class Policy:
                 self.dropped = True       # the server closed: what the client still had to say is never read
             if any(self.pending[o] for o in self.pending):
                 # applications that wait for a body that will never complete: let them run now
+                # (not a streaming application: that one waits until it is TOLD - its disconnect is the server's business)
                 for k, oid in enumerate(self.spawn_order):
-                    if self.pending[oid]:
+                    if self.pending[oid] and (self.apps[k % len(self.apps)]["when"] != "echo" or self._ready(view, oid, k)):
                         return {"send": [oid, self.pending[oid].pop(0)]}
             if self.closed_at_end and not self.sent_closed and not view.get("switched"):
                 self.sent_closed = True
+                self.closed_by_server_first = bool(view["up_closed"])
                 return {"closed": 1}
+            if any(self.pending[o] for o in self.pending) and self.sent_closed:
+                for k, oid in enumerate(self.spawn_order):
+                    if self.pending[oid]:
+                        return {"send": [oid, self.pending[oid].pop(0)]}
             return None
         c = self.rng.choice(choices)
         if c == "read":
